@@ -83,6 +83,7 @@ class TextFileStorage(Storage[str]):
         self._file_paths = self._manager.list()
         self._file = None
         self._process_identifier = None
+        self._process_identifier_owner = None  # pid of the process that registered the identifier
 
         self._index: List[Optional[Tuple[int, int]]] = self._manager.list()  # (process_identifier, file_offset)
         if number_of_data is not None:
@@ -116,11 +117,13 @@ class TextFileStorage(Storage[str]):
             # already opened
             return
 
-        if self._process_identifier is None:
+        if self._process_identifier is None or self._process_identifier_owner != os.getpid():
+            # also a forked child of a process that has written before: it must not append to its parent's file
             with self._storage_lock:
                 self._process_identifier = len(self._file_paths)
                 path = self._path + "/" + self._file_prefix + "_" + str(self._process_identifier)
                 self._file_paths.append(path)
+            self._process_identifier_owner = os.getpid()
             self._file = open(path, "w")
         else:
             self._file = open(self._file_paths[self._process_identifier], "a")
